@@ -9,6 +9,7 @@ a row here already carries them.
 Only property theorems and non-vacuity examples live here; helper lemmas are in Proofs/.
 -/
 import Prs.Proofs.Tcr
+import Prs.Generated.TcrClasses
 namespace Prs
 
 /-- the substring rule picks exactly the intended weights on each of the six column names -/
@@ -166,5 +167,22 @@ example (a b : TcrRow) (w : TcrWeights) :
   rw [C09_perm_invariant .paired .all w [a, b] [a] [1, 0] [0] (by simp) (by simp) 0 0 1 0 rfl rfl]
   exact C09_row_local .paired .all w [a, b] [a] 1 0 b a rfl rfl
 
-end Prs
+/-! ### the source: the six public metric classes, as re-read from pyrepseq/metric/tcr_metric/tcr_levenshtein.py on every run
+(`Generated/TcrClasses.lean`: `_chain_scope`, `_cdr_scope`, constructor defaults; sorted by class name) -/
 
+/-- each public class compares the chains and CDRs its name says: these are the (cs, ds) the theorems above are instantiated at -/
+theorem C09_source_classes :
+    Generated.tcrClasses.map (fun c => (c.1, chainOfName c.2.1, cdrOfName c.2.2.1)) =
+      [("AlphaCdr3Levenshtein", some .alpha, some .cdr3), ("AlphaCdrLevenshtein", some .alpha, some .all),
+       ("BetaCdr3Levenshtein", some .beta, some .cdr3), ("BetaCdrLevenshtein", some .beta, some .all),
+       ("Cdr3Levenshtein", some .paired, some .cdr3), ("CdrLevenshtein", some .paired, some .all)] := by
+  decide +kernel
+
+/-- every constructor exposes exactly the weights its scopes need (in any order), each defaulting to 1 — the unit weights of `C09_unit` -/
+theorem C09_source_defaults :
+    (Generated.tcrClasses.all fun c =>
+      sameNames (c.2.2.2.2.map (·.1)) (expectedParams (chainOfName c.2.1) (cdrOfName c.2.2.1)) &&
+      c.2.2.2.2.all fun d => d.2 == 1) = true := by
+  decide +kernel
+
+end Prs
